@@ -131,6 +131,21 @@ def class_programs(seed, n):
                 loop = [Let("n", I(-1)), Loop(Block([Expr(Asg(V("n"), I(1), "+=")), Expr(If(Bin(">", V("n"), I(9)), Block([Break()])))] + body))]
             progs.append(Program("small_%s_%s" % (kind, "_".join(exits)), {"main": Fn([], Block([Let("sum", I(0))] + loop + [Print(V("sum"))]))},
                                  feats={"family": "class-small"}))
+    # loop bodies which END in an expression that is run for its effect (no semicolon behind it): a print, an assignment, a call
+    for kind in ("while", "loop", "for"):
+        for tname, trailing in (("print", lambda: Call("println", S("at"), V("n"))), ("assign", lambda: Asg(V("sum"), V("n"), "+=")), ("call", lambda: Call("note", V("n")))):
+            pre = [Expr(Asg(V("n"), I(1), "+="))] if kind != "for" else []
+            if tname != "assign":
+                pre.append(Expr(Asg(V("sum"), V("n"), "+=")))
+            if kind == "while":
+                loop = [Let("n", I(0)), While(Bin("<", V("n"), I(4)), Block(pre, trailing()))]
+            elif kind == "loop":
+                loop = [Let("n", I(0)), Loop(Block([Expr(If(Bin(">=", V("n"), I(4)), Block([Break()])))] + pre, trailing()))]
+            else:
+                loop = [For("n", Range(I(0), I(4)), Block(pre, trailing()))]
+            progs.append(Program("small_trailing_%s_%s" % (kind, tname), {"note": Fn(["v"], Block([Print(S("note"), V("v"))])),
+                                                                          "main": Fn([], Block([Let("sum", I(0))] + loop + [Print(V("sum"))]))},
+                                 feats={"family": "class-small"}))
     # pure arithmetic trees over small values with every operator: what the rewrites print must mean the same
     def tree(d, ty):
         if d == 0 or rnd.random() < 0.25:
